@@ -171,7 +171,7 @@ def parseModule (ws : List String) : ModuleM :=
           | .func _, "f" => true | .table _, "t" => true | .mem _, "m" => true | .global _, "g" => true
           | _, _ => false).length
         let nF := cnt "f" + ((get "FN").filterMap String.toNat?).length
-        let n1 := appliedNames nF (parseNames (get "NM"))
+        let n1 := appliedNameSections nF ((splitOn1 (get "NM") "&").map parseNames)
         some (inRangeNames nF (get "T").length (cnt "t" + ((get "TB").filterMap parseTableTy).length)
           (cnt "m" + ((get "ME").filterMap parseMemTy).length) (cnt "g" + ((get "GL").filterMap parseGlobal).length)
           ((get "EL").filterMap parseElem).length ((get "DA").filterMap parseData).length n1)
